@@ -98,6 +98,21 @@ def _sizes(ctx, cfg):
         for bn in [n for n in want if n.endswith("bias")]:
             ctx.holds("sizes/%s.%s is zero" % (net, bn), bool((getattr(m, bn) == 0).all()))
     ctx.holds("sizes/exactly one randn draw per weight matrix", di == len(draws))
+    # the device the state reports is the device its parameters live on (the CPU whenever CUDA is unavailable, whatever
+    # gpu= says), and the freshly built state can be evaluated
+    pdev = {p.device.type for net in nets for p in getattr(s, net).parameters()}
+    ctx.holds("sizes/state.device and every network's device are where the parameters are", pdev == {torch.device(s.device).type}
+              and all(torch.device(getattr(s, net).device).type in pdev for net in nets), "%s vs state %s" % (pdev, s.device))
+    try:
+        sp = s.generate_hilbert_space(nv)
+        val = s.rho(sp, sp) if kind == "mixed" else s.psi(sp)
+        Z = s.normalization(sp)
+        smp = s.sample(k=1, num_samples=3)
+        ok_eval = tuple(val.shape)[0] == 2 and float(Z) > 0 and tuple(smp.shape) == (3, nv)
+        why = ""
+    except Exception as e:                 # noqa: BLE001
+        ok_eval, why = False, "%s: %s" % (type(e).__name__, str(e)[:160])
+    ctx.holds("sizes/a freshly built state evaluates (psi / rho, normalization, sample)", ok_eval, why)
     if kind != "positive":
         ctx.holds("sizes/amplitude and phase networks are distinct objects with disjoint storages",
                   s.rbm_am is not s.rbm_ph and not (set(_ptrs(s.rbm_am).values()) & set(_ptrs(s.rbm_ph).values())))
@@ -110,15 +125,20 @@ def _module(ctx, cfg):
     from qucumber.rbm import BinaryRBM, PurificationRBM
     kind = cfg["kind"]
     ctx.under_contract("%s.__init__" % _cls(kind).__name__)
-    for arch in ((2, 3, 2), (3, 1, 1)):
+    import warnings
+    for arch, gpu in (((2, 3, 2), False), ((3, 1, 1), False), ((2, 2, 1), True)):      # gpu=True without CUDA: a warning, then the CPU
         mod = PurificationRBM(*arch, gpu=False) if kind == "mixed" else BinaryRBM(arch[0], arch[1], gpu=False)
         for p in mod.parameters():
             p.data = torch.randn_like(p)
         ptr0 = _ptrs(mod)
         vals0 = {n: p.detach().clone() for n, p in mod.named_parameters()}
-        t = "[%s arch=%s]" % (kind, arch)
+        t = "[%s arch=%s%s]" % (kind, arch, " gpu=True" if gpu else "")
         try:
-            s = _cls(kind)(99, module=mod, gpu=False)
+            with warnings.catch_warnings():
+                warnings.simplefilter("ignore")
+                s = _cls(kind)(99, module=mod, gpu=gpu)
+                sp = s.generate_hilbert_space(arch[0])
+                (s.rho(sp, sp) if kind == "mixed" else s.psi(sp))
         except Exception as e:
             ctx.holds("module/construction terminates normally" + t, False, "%s: %s" % (type(e).__name__, e))
             continue
